@@ -301,12 +301,12 @@ CHECKS["C11"] = dict(
 
 CHECKS["C16"] = dict(
     level_text="The real copy.Copy with include/exclude patterns is executed on the model file system: for every tree and pattern lists inside the bounds the set of paths created in the destination equals the set the real filtered Walk reports for the same tree (asserted unconditionally), equals the statement's naive reference selection outside the known incremental-matcher class, contains no directory without a selected descendant, and ancestors created on demand carry the source directory's mode and owner.",
-    level_note="Bounds: tree X/{P, Q/{R}}, Y with names drawn from {a, b, c} (siblings ascending), lists of up to 1+1 and 0+2 patterns from 12 templates over all trees, 1+2 / 2+1 (quick) and 2+2 (thorough) patterns on one concrete tree, optionally a populated destination (thorough). " + FILTER_NOTE + FS_TRUST + BASE_TRUST,
+    level_note="Bounds: tree X/{P, PP/ (an empty directory), Q/{R}}, Y with names drawn from {a, b, c} (siblings ascending), lists of up to 1+1 and 0+2 patterns from 12 templates over all trees, 1+2 / 2+1 (quick) and 2+2 (thorough) patterns on one concrete tree, optionally a populated destination (thorough). " + FILTER_NOTE + FS_TRUST + BASE_TRUST,
     assumptions=["names are concrete (model-FS keys), chosen by the solver from a three-letter alphabet"],
     obligations=[
         ob("VH_C16_select", dict(NI=1, NE=1), pkg=COPY, covers=["agreeing-class", "on-demand-ancestor"], bounds="<=1 include and <=1 exclude pattern"),
         ob("VH_C16_select", dict(NI=0, NE=2), pkg=COPY, covers=["agreeing-class", "incremental-class"], bounds="<=2 exclude patterns"),
-        ob("VH_C16_select", dict(NI=1, NE=2, FIX=1), pkg=COPY, covers=["agreeing-class", "incremental-class", "on-demand-ancestor"], bounds="<=1 include and <=2 exclude patterns on the concrete tree a/{a, b/{a}}, b"),
+        ob("VH_C16_select", dict(NI=1, NE=2, FIX=1), pkg=COPY, covers=["agreeing-class", "incremental-class", "on-demand-ancestor"], bounds="<=1 include and <=2 exclude patterns on the concrete tree a/{a, aa/, b/{a}}, b"),
         ob("VH_C16_select", dict(NI=2, NE=1, FIX=1), pkg=COPY, covers=["agreeing-class", "incremental-class", "on-demand-ancestor"], bounds="<=2 include and <=1 exclude patterns on the concrete tree"),
         ob("VH_C16_select", dict(NI=2, NE=2, FIX=1), T, pkg=COPY, covers=["agreeing-class", "incremental-class"], bounds="<=2 include and <=2 exclude patterns on the concrete tree"),
         ob("VH_C16_select", dict(NI=2, NE=0), T, pkg=COPY, covers=["agreeing-class", "incremental-class"], bounds="<=2 include patterns"),
